@@ -21,6 +21,9 @@
 (*    outcome with the ground truth, which does not mention storage parities, *)
 (*    input order or workers.                                                 *)
 (*                                                                            *)
+(* Both machines start from a decomposition, a storage parity per input and   *)
+(* the parity of the tile format, and derive the files and the per-input plan  *)
+(* (rectangles, reconciled array, slices) from them once.                      *)
 (* SpecPaste : inputs pasted one after the other, in every order (serial      *)
 (*             mode; also the reference "paste into one large image").        *)
 (* SpecPar   : NWorkers workers taking the inputs from the queue, each tile   *)
@@ -204,9 +207,9 @@ VARIABLES dc,        \* the decomposition (frozen)
           cleaned    \* SpecPar: tile() has returned (clean_lockfiles ran)
 vars == <<dc, pars, q, plan, order, tiles, mosaic, wk, held, lockfiles, cleaned>>
 frozen == <<dc, pars, q, plan>>
-Lev == ST!Tiling(dc.W, dc.H).lev
 N == Len(dc.subs)
 Fs == Files(dc, pars)
+Lev == plan[1].rs[1].pos[1]                  \* the deepest level (every rectangle of the plan carries it)
 AllPasted == Len(order) = N
 
 InitCommon == /\ dc \in Decomps
@@ -214,7 +217,7 @@ InitCommon == /\ dc \in Decomps
               /\ q \in Parities
               /\ plan = Plan(Files(dc, pars), q)
               /\ order = <<>>
-              /\ tiles = [p \in TilePositions(ST!Tiling(dc.W, dc.H)) |-> Blank]
+              /\ tiles = [p \in TilePositions(GTiling(Files(dc, pars))) |-> Blank]
               /\ held = {} /\ lockfiles = {} /\ cleaned = FALSE
 
 \* ---------------------------------------------------------------- SpecPaste
